@@ -728,7 +728,11 @@ class Output(object):
             if self.script_type == 'p2tr':
                 raise TransactionError("Cannot derive a taproot output from a public key, please provide the 32 byte "
                                        "witness program as public_hash")
-            self.public_hash = hash160(self.public_key)
+            if self.script_type in ['p2wsh', 'p2sh_p2wsh']:
+                # Script hash of the witness script, here the serialized public key
+                self.public_hash = sha256(self.public_key)
+            else:
+                self.public_hash = hash160(self.public_key)
         elif self._address and (not self.public_hash or not self.script_type or not self.encoding):
             address_dict = deserialize_address(self._address, self.encoding, self.network.name)
             if address_dict['script_type'] and not script_type:
@@ -747,6 +751,16 @@ class Output(object):
             self.witness_type = address_dict['witness_type']
             if address_dict['witver']:
                 self.witver = address_dict['witver']
+        if self.script_type in ['p2sh_p2wpkh', 'p2sh_p2wsh'] and self.public_hash and not self.script and \
+                not self._address:
+            # Nested segwit requested with a key hash or script hash: pay to the script hash of the witness program
+            if len(self.public_hash) != (20 if self.script_type == 'p2sh_p2wpkh' else 32):
+                raise TransactionError("Hash for script type %s must be %d bytes" %
+                                       (self.script_type, 20 if self.script_type == 'p2sh_p2wpkh' else 32))
+            self.public_hash = hash160(b'\0' + varstr(self.public_hash))
+            self.script_type = 'p2sh'
+            self.encoding = 'base58'
+            self.witness_type = 'p2sh-segwit'
         if not self.encoding:
             self.encoding = 'bech32'
             if self.script_type in ['p2pkh', 'p2sh', 'p2pk'] or self.witness_type == 'legacy':
